@@ -162,8 +162,10 @@ CLAIMS = {
             "or originates — unconditionally, whenever present — from the editor field filled from the "
             "loaded repository (targets, delegations, unknown members of targets/snapshot/timestamp), "
             "that from_repo feeds all three roles, and that delegated roles are collected recursively and "
-            "re-emitted with their Signed<_> value untouched. Member-by-member equality of written files "
-            "is not decided.",
+            "re-emitted — every one, unconditionally — with their Signed<_> value untouched, that the editor "
+            "installed by targets() comes only from from_targets(loaded targets), that every role file of "
+            "the result is written or the write fails, and (E1) that no error of an editor step is dropped. "
+            "Member-by-member equality of written files is not decided.",
             "DESIGN.md §4 C17"),
     "C19": ("who-may-write query over cache.rs + MIR must-pass/value-origin rules + interprocedural "
             "file-name template comparison between what the cache writes and what the loader requests",
@@ -171,7 +173,9 @@ CLAIMS = {
             "consistent snapshots, for every requested or every listed target, errors propagated), that the "
             "metadata file names written equal the names a client loading the copy will request, that the "
             "root chain covers 1..=trusted version when requested and a missing version is an error, that "
-            "delegated roles are enumerated recursively. Byte identity of the re-fetched metadata and a "
+            "delegated roles are enumerated recursively, that cache_target succeeds only through a successful "
+            "save_target, that each metadata copy is bounded by its own role's limit and flushed before Ok "
+            "(D17, repaired); C08's save_target obligations are re-evaluated as a dependency. Byte identity of the re-fetched metadata and a "
             "remote changing between load and cache are not decided.",
             "DESIGN.md §4 C19"),
     "C11": ("trait-table exhaustiveness query (compiler facts incl. extern default bodies) + MIR "
@@ -191,7 +195,10 @@ CLAIMS = {
             "that written metadata names equal the names the client requests, that a non-root role below "
             "its threshold is refused, that incoming delegated metadata is stored only after verify_role "
             "and a not-lower version, that only digest-matching files are published, and that removals "
-            "apply to both target sets. Recorded findings: add_role does not verify (D10); targets with "
+            "apply to both target sets; that pending edits survive a failed signing attempt, every authorised "
+            "supplied key signs, add_key attaches every given key id, an existing destination is accepted "
+            "only under consistent snapshots or after a digest check, the signer's algorithms are ones the "
+            "verifier checks with, and (E1) no error of an editor/tuftool step is dropped. Recorded findings: add_role does not verify (D10); targets with "
             "URL-escaped characters are not downloadable over file:// (D14). Round-trip equality of "
             "content is not decided.",
             "DESIGN.md §4 C10"),
@@ -204,7 +211,8 @@ CLAIMS = {
             "only under may_retry() == true, which needs tries left (the failed try counted first, "
             "current_try written only by +1 in increment) and range support or no bytes delivered yet; "
             "range support is learnt only from Accept-Ranges: bytes; Range: bytes=<next_byte>- exactly "
-            "when next_byte != 0; every delivered chunk advances next_byte. Wire-level ordering, timing "
+            "when next_byte != 0; every delivered chunk advances next_byte; the stream ends without an "
+            "error item only where the response body ended. Wire-level ordering, timing "
             "and server behaviour are not decided.",
             "DESIGN.md §4 C18"),
 }
